@@ -4,7 +4,7 @@
    properties with a <name>Map spelling) and by the literal codecs of streams/values (Streams/CodecInst.v). *)
 From Coq Require Import String List Bool Arith ZArith.
 From Verif Require Import Base.ListX Base.Json Vocab.Tables Gen.TablesShipped Streams.Literals Streams.Codec Streams.CodecInst.
-From Verif Require Import Proofs.CodecProofs.
+From Verif Require Import Proofs.CodecProofs Proofs.IdemProofs Proofs.TimeIdemProofs.
 Import ListNotations.
 Open Scope string_scope.
 Open Scope list_scope.
@@ -87,8 +87,55 @@ Proof.
   - apply lexical_str_example; vm_compute; reflexivity.
 Qed.
 
+(* ---- "a second round trip changes nothing" (Proofs/IdemProofs.v): for any tables whose rows are row_ok (decidable; true of
+   the shipped tables: shipped_tables_ok) and any literal codecs that are codec_stable (what the second pass needs of them: a
+   serialised literal is read back unchanged, a kind that rejected the input does not accept another kind's output, ...),
+   on members that are `good` (unique keys, no one-element array holding an array for a known list property - recursively
+   through embedded values; the examples nested_array_not_idempotent / duplicate_key_not_idempotent show both are needed)
+   the output of the round trip is its own round trip, and is `good` again. ---- *)
+Theorem C01_idempotent : forall T P url_ok norm_iri norm,
+  codec_stable T P url_ok norm_iri norm -> (forall r, In r T -> row_ok P r = true) ->
+  forall n row m m', row_ok P row = true -> good T P n row m = true ->
+  rt_type T P url_ok norm_iri norm n row m = Some m' -> rt_type T P url_ok norm_iri norm n row m' = Some m'.
+Proof. exact roundtrip_idempotent. Qed.
+Theorem C01_good_preserved : forall T P url_ok norm_iri norm,
+  codec_stable T P url_ok norm_iri norm -> (forall r, In r T -> row_ok P r = true) ->
+  (forall p1 p2, In p1 P -> In p2 P -> p_has_map p1 = true -> p_name p2 <> String.append (p_name p1) "Map") ->
+  forall n row m m', row_ok P row = true -> good T P n row m = true ->
+  rt_type T P url_ok norm_iri norm n row m = Some m' -> good T P n row m' = true.
+Proof. exact good_preserved. Qed.
+(* the shipped tables and codecs meet every hypothesis: codec_stable is proved for them field by field, including that a
+   printed duration / dateTime is read back as itself (C01_duration_idem: after fix F23; dateTimes: the calendar round trip
+   for every date, one 400-year cycle by computation and periodicity) - so nothing is assumed *)
+Theorem C01_idempotent_shipped : forall n row m m',
+  In row types_shipped -> good types_shipped props_shipped n row m = true ->
+  rt_type types_shipped props_shipped url_ok norm_iri norm n row m = Some m' ->
+  rt_type types_shipped props_shipped url_ok norm_iri norm n row m' = Some m'.
+Proof. exact roundtrip_idempotent_shipped_closed. Qed.
+Theorem C01_good_preserved_shipped : forall n row m m',
+  In row types_shipped -> good types_shipped props_shipped n row m = true ->
+  rt_type types_shipped props_shipped url_ok norm_iri norm n row m = Some m' ->
+  good types_shipped props_shipped n row m' = true.
+Proof. exact good_preserved_shipped_closed. Qed.
+Theorem C01_duration_idem : forall e v, norm "@duration" e = Some v -> norm "@duration" v = Some v.
+Proof. exact duration_idem. Qed.
+Theorem C01_time_literals_idem : forall k e v, k = "@datetime" \/ k = "@duration" -> norm k e = Some v -> norm k v = Some v.
+Proof. exact time_literals_idem_shipped. Qed.
+(* finding F23 (repaired): a duration beyond the range of time.Duration is no duration value any more and is kept verbatim *)
+Theorem C01_overflowing_duration_kept :
+  rt_shipped dur_doc = Some dur_doc /\ norm "@duration" (JStr "PT18446744073S") = None /\
+  norm "@duration" (JStr "P400Y") = None /\ norm "@duration" (JStr "P292Y") = Some (JStr "P292Y").
+Proof. exact overflowing_duration_kept. Qed.
+
 Print Assumptions C01_roundtrip.
 Print Assumptions C01_members_kept.
 Print Assumptions C01_both_spellings_refuted.
 Print Assumptions C01_context_exact.
 Print Assumptions C01_context_roundtrip.
+Print Assumptions C01_idempotent.
+Print Assumptions C01_good_preserved.
+Print Assumptions C01_idempotent_shipped.
+Print Assumptions C01_good_preserved_shipped.
+Print Assumptions C01_duration_idem.
+Print Assumptions C01_time_literals_idem.
+Print Assumptions C01_overflowing_duration_kept.
